@@ -453,6 +453,11 @@ func c07Judge(c *wk.Ctx, res *c07Result, wit map[string]any) {
 			}
 		}
 	}
+	// per-run step data is created once per run ID: the fixture's only initialiser (step "sig") cannot have run more
+	// often than there are distinct run IDs in accepted work-starts
+	if inits := res.fixture.Inits(); inits > int64(len(accepted)) {
+		c.Violation("C07:step-data-created-more-than-once-per-run", fmt.Sprintf("%d run ID(s) were accepted but the step-data initialiser ran %d times", len(accepted), inits), wit)
+	}
 	wit["accepted"] = accepted
 	wit["unacceptable_work_starts_naming_run"] = rejectedWS
 	wit["terminal"] = terminal
